@@ -118,6 +118,34 @@ def _dir(layout: str, i: int) -> str:
     return "d1" if layout == "flat" else "/".join(f"d{k}" for k in range(1, i + 1))
 
 
+def _edge(case: dict, root: Path, i: int, j: int) -> str:
+    """The extend_config value by which file i names file j, in the spelling of the case (Config.tla, AllSpells)."""
+    layout = case.get("layout", "flat")
+    here = root / _dir(layout, i)
+    target = root / _dir(layout, j) / f"f{j}.toml"
+    rel = os.path.relpath(target, here)
+    spell = case.get("spell", "same")
+    if spell == "same":
+        return rel
+    if spell == "dot":
+        return "./" + rel
+    if spell == "up":
+        return f"../{here.name}/{rel}"
+    if spell == "abs":
+        return str(target)
+    if spell == "redundant":
+        (here / "sub").mkdir(parents=True, exist_ok=True)
+        return "sub/../" + rel
+    if spell == "symlink":
+        here.mkdir(parents=True, exist_ok=True)
+        link = here / f"l{j}.toml"
+        if link.is_symlink():
+            link.unlink()
+        link.symlink_to(target)
+        return link.name
+    raise core.MachineryError(f"unknown spelling {spell!r}")
+
+
 def write_files(case: dict, root: Path) -> Path:
     """Realise the chain of files of the case under `root`; returns the main file."""
     files = case["files"]
@@ -142,6 +170,10 @@ def write_files(case: dict, root: Path) -> Path:
             items = _section_items(case, sec, f"f{i}.{name}", ova_bad if key == "ova" else None)
             if here and bad == "nested_overrides" and key == "ova":
                 items.append("overrides = []")
+            if here and bad == "recursive_override" and key == "ova":
+                # the cycle is closed from inside an override table: back to the main file from the last file,
+                # to the file itself from an earlier one
+                items.append(f'extend_config = "{_edge(case, root, i, 1 if i == n else i)}"')
             if here and bad == "module_not_string" and key == "ova":
                 items.insert(0, "module = 3")
             elif not (here and bad == "override_without_module" and key == "ova"):
@@ -157,17 +189,15 @@ def write_files(case: dict, root: Path) -> Path:
         ext_line = []
         if i < n:
             # a RELATIVE path, resolved against the directory of the including file
-            nxt = f"f{i + 1}.toml" if layout == "flat" else f"d{i + 1}/f{i + 1}.toml"
-            ext_line = [f'extend_config = "{nxt}"']
+            ext_line = [f'extend_config = "{_edge(case, root, i, i + 1)}"']
         if here and bad == "recursive" and i == n:
             # back to the main file: self-inclusion for n = 1, a 2-cycle (3-cycle) for n = 2 (3)
-            back = os.path.relpath(root / _dir(layout, 1) / "f1.toml", root / _dir(layout, i))
-            ext_line = [f'extend_config = "{back}"']
+            ext_line = [f'extend_config = "{_edge(case, root, i, 1)}"']
         if here and bad == "missing_file" and i == n:
             ext_line = ['extend_config = "does_not_exist.toml"']
         if here and bad in ("recursive", "missing_file") and i < n:
             # defect in a non-final file: point it at itself / nowhere instead of the next file
-            ext_line = ['extend_config = "f%d.toml"' % i] if bad == "recursive" else ['extend_config = "nope.toml"']
+            ext_line = [f'extend_config = "{_edge(case, root, i, i)}"'] if bad == "recursive" else ['extend_config = "nope.toml"']
         if here and bad == "extend_not_string":
             ext_line = ["extend_config = 3"]
         pos = f["extpos"]
@@ -602,6 +632,7 @@ def _defaults(case: dict) -> dict:
     c.setdefault("cfgsrc", "arg")
     c.setdefault("layout", "flat")
     c.setdefault("lookups", [])
+    c.setdefault("spell", "same")
     return c
 
 
@@ -693,6 +724,7 @@ EMIT = {
     "Config.cmdline3.cfg": (32, 4),
     "Config.hist.cfg": (1, 12),     # histories of >= 2 lookups: 1/12
     "Config.hist3.cfg": (1, 24),
+    "Config.spell.cfg": (1, 8),     # acyclic chains in six spellings: 1/8; every cycle (malformed) is printed
 }
 
 
@@ -733,22 +765,26 @@ def run(check: core.Check) -> None:
     #    (c) the history slice: ONE Options object, a sequence of <= 3 lookups (option kind, module) on it
     cfg3 = "Config.hist.cfg" if quick else "Config.hist3.cfg"
     with _phase(check, "TLC: model checking, sensitivity, simulation (concurrent)"):
-        with ThreadPoolExecutor(5) as ex:
+        with ThreadPoolExecutor(6) as ex:
             f_a = ex.submit(_model_check, check, cfg, "Config layering slice")
             f_b = ex.submit(_model_check, check, cfg2, "Config command-line slice")
             f_h = ex.submit(_model_check, check, cfg3, "Config history slice")
+            f_p = ex.submit(_model_check, check, "Config.spell.cfg", "Config spelling slice")
             f_s = ex.submit(sensitivity, check)
             f_sim = ex.submit(core.simulate_cases, "ConfigSim", "Config.sim.cfg", 3000 if quick else 60000,
                               depth=8, seed=check.seed + 1, check=check)
             res, cases = f_a.result()
             res2, cl_cases = f_b.result()
             res3, hist_cases = f_h.result()
+            res4, spell_cases = f_p.result()
             f_s.result()
             sim_cases = f_sim.result()
     check.add_tlc("exhaustive:" + cfg, res, printed_cases=len(cases), print_moduli=EMIT[cfg])
     check.add_tlc("exhaustive:" + cfg2, res2, printed_cases=len(cl_cases), print_moduli=EMIT[cfg2])
     check.add_tlc("exhaustive:" + cfg3, res3, printed_cases=len(hist_cases), print_moduli=EMIT[cfg3])
     check.cov["history_cases"] = len(hist_cases)
+    check.add_tlc("exhaustive:Config.spell.cfg", res4, printed_cases=len(spell_cases), print_moduli=EMIT["Config.spell.cfg"])
+    check.cov["spelling_cases"] = len(spell_cases)
     # 2. S->C replay of the printed cases through the real code, adjudicated by TLC
     capped = False
     for lst, limit in ((cases, 50000 if quick else 700000), (cl_cases, 130000 if quick else 900000)):
@@ -778,6 +814,9 @@ def run(check: core.Check) -> None:
         "the option)" + ("" if quick else ", inst") + "} x 4 queried modules x defaults (incl. the truthy default 10 of "
         "maximum_positional_args and both error-code defaults), plus 14 kinds of malformed configuration at every "
         "file/section with and without a command-line value. "
+        "Spelling slice (Config.spell.cfg): chains of <= 3 files whose extend_config references are spelled {same dir, "
+        "./x, ../dir/x, absolute, sub/../x, through a symlink}: acyclic chains follow the precedence, cycles of length 1-3 "
+        "(closed at top level or inside an override table) and self-inclusions raise InvalidConfigOption in every spelling. "
         f"History slice ({cfg3}): ONE real Options object per case (chains of <= {2 if quick else 3} slim files x cmdline) and "
         f"every sequence of <= 3 lookups (kind in {{list,int}} x 4 modules) performed on it "
         "through for_module(...).get_value_for; every lookup judged against the documented value, stored instances and class "
@@ -789,6 +828,7 @@ def run(check: core.Check) -> None:
     cases.clear()
     judge(check, cl_cases, "tlc-cmdline")
     judge(check, hist_cases, "tlc-history")
+    judge(check, spell_cases, "tlc-spelling")
     judge(check, sim_cases, "tlc-simulate")
     # 3. the real program for a sample of the argv cases (module () only: that is what --display-options shows)
     argv_cases = [c for c in cl_cases if c["route"] == "argv" and c["q"] == [] and (c["argv"] or c["bad"] != "none")]
